@@ -269,3 +269,62 @@ fn c10_literal_float_rejects_integers_bounded() {
     assert!(literal_float(&b).is_err());
     kani::cover!(true);
 }
+
+/// `e|E [+|-] D D D` -> Exponent(+-(100 D + 10 D + D)), exactly the digits are consumed.  BOUNDED: this shape (exponents 0..999 of
+/// either sign: the whole range in which a double's exponent matters, and well beyond).
+#[kani::proof]
+#[kani::unwind(8)]
+fn c10_float_exponent_value_bounded() {
+    let (d1, d2, d3) = (any_digit(), any_digit(), any_digit());
+    let e: u8 = kani::any();
+    kani::assume(e == b'e' || e == b'E');
+    let sign: u8 = kani::any();
+    kani::assume(sign == b'-' || sign == b'+' || sign == b'0');
+    // a sign byte of '0' stands for "no sign" (a leading zero digit)
+    let b = [e, sign, d1, d2, d3, b';'];
+    let magnitude = (dig(d1) * 100 + dig(d2) * 10 + dig(d3)) as i64;
+    match float_exponent(&b) {
+        Ok((rest, Exponent(v))) => {
+            assert!(rest.len() == 1);
+            assert!(v == if sign == b'-' { -magnitude } else { magnitude });
+        }
+        Err(_) => assert!(false),
+    }
+    kani::cover!(sign == b'-' && d1 == b'3');
+}
+
+/// a block comment ends at the FIRST `*/` at or after byte 2 (the `*` of the opener does not count), an unterminated one is
+/// reported as end of stream, anything not starting with `/*` is not a block comment.  BOUNDED: inputs of at most 8 bytes.
+#[kani::proof]
+#[kani::unwind(10)]
+fn c14_block_comment_ends_at_first_terminator_bounded() {
+    let b: [u8; 8] = kani::any();
+    let n: usize = kani::any();
+    kani::assume(n <= 8);
+    let r = block_comment(&b[..n]);
+    let was_ok = r.is_ok();
+    if n >= 2 && b[0] == b'/' && b[1] == b'*' {
+        let mut end: Option<usize> = None;
+        let mut i = 2;
+        while i + 1 < n {
+            if end.is_none() && b[i] == b'*' && b[i + 1] == b'/' {
+                end = Some(i + 2);
+            }
+            i += 1;
+        }
+        match (end, r) {
+            (Some(e), Ok((rest, tok))) => {
+                assert!(rest.len() == n - e);
+                assert!(tok == Token::Comment);
+            }
+            (None, Err(LexErrorContext(_, reason))) => assert!(reason == LexerErrorReason::EndOfStream),
+            _ => assert!(false),
+        }
+    } else {
+        match r {
+            Err(LexErrorContext(_, reason)) => assert!(reason == LexerErrorReason::OtherTokenBytes),
+            Ok(_) => assert!(false),
+        }
+    }
+    kani::cover!(n == 8 && was_ok);
+}
